@@ -8,6 +8,7 @@ mod backupops;
 mod diffops;
 mod formatscan;
 mod gcops;
+mod historyops;
 mod localops;
 mod raceops;
 mod rawarchive;
@@ -29,6 +30,7 @@ fn main() {
         "backup" => backupops::run(&sc),
         "diff" => diffops::run(&sc),
         "race" => raceops::run(&sc),
+        "history" => historyops::run(&sc),
         "restore_raw" => restoreops::run(&sc),
         "walk" => walkops::run(&sc),
         "local_write" => localops::run(&sc),
